@@ -513,17 +513,18 @@ def c04p(tier, seed):
     for coll in ("cw20", "native"):
         native = coll == "native"
         for side in ("buy", "sell"):
-            for oracle in (700, 1300):
+            for oracle in (960, 1000, 1100):
                 for plr in (25, 50):
                     for m in (300, 800):
                         ops = [block(15), opn("tr1", side, m, 1000, funds=m if native else 0),
+                               tx("vamm1", "update_config", "owner", dict(fluct=2)),
                                tx("feed", "append_price", "owner", dict(key="ETH", price=oracle, t=100015)),
                                block(day + 1), tx("engine", "pay_funding", "stranger", dict(vamm="vamm1")),
                                close("tr1"), query("engine", "position", dict(vamm="vamm1", trader="tr1")),
                                block(day + 1), tx("engine", "pay_funding", "stranger", dict(vamm="vamm1")),
                                close("tr1"), block(15), close("tr1"), block(15), close("tr1"),
                                tx("engine", "withdraw_margin", "tr1", dict(vamm="vamm1", amount=1))]
-                        out.append(dict(id="c04p-%d" % k, deploy=dep(coll, vamms=[dict(period=day, fluct=2)], engine=dict(plr=plr)), ops=ops))
+                        out.append(dict(id="c04p-%d" % k, deploy=dep(coll, vamms=[dict(period=day)], engine=dict(plr=plr)), ops=ops))
                         k += 1
     return out
 
